@@ -114,10 +114,13 @@ def serEntries : Nat → List ZlEntry → Bytes
 def serZiplist (es : List ZlEntry) : Bytes :=
   let body := serEntries 0 es
   let tail := 10 + (serEntries 0 es.dropLast).length
-  leBytes 4 (10 + body.length + 1) ++ leBytes 4 tail ++ leBytes 2 es.length ++ body ++ [0xFF]
+  leBytes 4 (10 + body.length + 1) ++ leBytes 4 tail ++ leBytes 2 (min es.length 65535) ++ body ++ [0xFF]
 
-/-- a ziplist Redis can hand to the RDB writer with a known count -/
-def zlWF (es : List ZlEntry) : Prop := (∀ e ∈ es, e.WF) ∧ es.length < 65535
+/-- a ziplist Redis can hand to the RDB writer: any number of entries (the 16-bit count saturates at 65535,
+    which tells the reader to walk the entries) -/
+def zlWF (es : List ZlEntry) : Prop := ∀ e ∈ es, e.WF
+
+instance (es : List ZlEntry) : Decidable (zlWF es) := by unfold zlWF; infer_instance
 
 def flattenPairs (ps : List (ZlEntry × ZlEntry)) : List ZlEntry := ps.flatMap fun (a, b) => [a, b]
 
